@@ -59,7 +59,7 @@ class C05(core.Check):
     required_buckets = {b: 3 for b in [
         'boundary:ends-at-zone-end', 'boundary:one-past-zone-end', 'boundary:ends-at-global-end', 'boundary:one-past-global-end',
         'org:zone-offset-0', 'org:zone-offset-last', 'org:zone-offset-past', 'org:bare-after-zone', 'org:GLOBAL-relative',
-        'same-zone>=3-stretches', 'create:valid', 'create:outside-global', 'create:duplicate', 'create:inverted',
+        'same-zone>=3-stretches', 'create:valid', 'create:outside-global', 'create:duplicate', 'create:duplicate/same-range', 'create:inverted',
         'create:beyond-width', 'layout:global-redefined', 'layout:overlapping', 'layout:adjacent', 'layout:nested',
         'include-from-zone', 'include-from-zone-then-continue', 'org:zone-offset-negative', 'org:bare-literal-inside-selected-zone', 'zerountil-in-zone', 'zone-switch-in-unselected-branch', 'isa-zone:inverted', 'isa-zone:beyond-width', 'inverted-by-1', 'expect:ACCEPT', 'expect:REJECT', 'isa-zone:reaches-beyond-redefined-GLOBAL', 'isa-zone:reaches-above', 'isa-zone:reaches-below']}
 
@@ -295,10 +295,17 @@ class C05(core.Check):
                     which = 'create:beyond-width'
             main.insert(0, {'k': 'create_memzone', 'name': 'NEWZ', 'start': s, 'end': e})
         elif which == 'create:duplicate':
-            nm = rng.choice(['ZA', 'GLOBAL', 'NEWZ'])
+            nm = ['ZA', 'GLOBAL', 'NEWZ'][(i // 14) % 3] if i < 140 else rng.choice(['ZA', 'GLOBAL', 'NEWZ'])
+            # the second declaration is a reuse of the name whether or not it repeats the first one's range
+            same = (i // 7) % 2 == 1
+            if same:
+                which_extra = 'create:duplicate/same-range'
             if nm == 'NEWZ':
                 main.insert(0, {'k': 'create_memzone', 'name': 'NEWZ', 'start': G[0] + 20, 'end': G[0] + 25})
-                main.insert(1, {'k': 'create_memzone', 'name': 'NEWZ', 'start': G[0] + 30, 'end': G[0] + 35})
+                main.insert(1, {'k': 'create_memzone', 'name': 'NEWZ', 'start': G[0] + (20 if same else 30), 'end': G[0] + (25 if same else 35)})
+            elif same:
+                b_ = {'ZA': (G[0] + 4, G[0] + 12), 'GLOBAL': G}[nm]
+                main.insert(0, {'k': 'create_memzone', 'name': nm, 'start': b_[0], 'end': b_[1]})
             else:
                 main.insert(0, {'k': 'create_memzone', 'name': nm, 'start': G[0] + 20, 'end': G[0] + 25})
         elif which == 'create:inverted':
